@@ -19,7 +19,10 @@ for f in "$D"/*_test.go; do
   cp "$f" "$dest/"; pkgs="$pkgs ./$dest/"
 done
 pkgs=$(echo $pkgs | tr ' ' '\n' | sort -u | tr '\n' ' ')
-run_demo() { go test -vet=off -count=1 -run 'Seed|seed|SEED' $pkgs >/tmp/confirm-$NAME-$1.log 2>&1; echo $?; }
+# the test name pattern: the one the demo's own instructions give, else anything with "seed" in it
+PAT=$(grep -o -- "-run [^ ]*" "$D/demo_path.txt" | head -1 | sed "s/^-run //; s/^['\"]//; s/['\"]$//")
+[ -n "$PAT" ] || PAT='Seed|seed|SEED'
+run_demo() { go test -vet=off -count=1 -run "$PAT" $pkgs >/tmp/confirm-$NAME-$1.log 2>&1; echo $?; }
 without=$(run_demo without)
 git apply "$D/patch.diff"
 with=$(run_demo with)
